@@ -2,6 +2,8 @@
 
 package raft
 
+import "time"
+
 // finalShutdown (C15): from an explored state, Shutdown is executed on every
 // running node; it must return, every pending task must complete exactly once
 // (with ErrServerClosed or its earlier result).
@@ -71,4 +73,91 @@ func errString(err error) string {
 		return "<nil>"
 	}
 	return err.Error()
+}
+
+// ---------------------------------------------------------------- C15 / C19 specs
+
+func scenStress(dev int) *simScenario {
+	return &simScenario{
+		Name: "stress",
+		Opt:  worldOpt{Nodes: 4, Voters: []uint64{1, 2, 3}, EagerFSM: false, EagerLU: true, EagerConnect: true, Pad: 275, ShutOnRem: true},
+		Script: []string{"T:1", "run", "update:1", "run", "update:1", "run", "update:1", "run"},
+		Menu: simMenu{OrderCost: true, Timeouts: true, MaxTerm: 4, Drops: true, Crashes: true, Shutdowns: true, Snapshots: true, MaxSnaps: 2,
+			Clients: []string{"update", "read", "barrier", "dirty", "batch2"}, MaxUpdates: 2, MaxClient: 1,
+			Admin: []string{"transfer:2", "demote:3", "remove:1", "add:4:promote", "waitstable"}, MaxAdmin: 2},
+		MaxDev:  dev,
+		Crashes: 1,
+		Final:   "shutdown",
+	}
+}
+
+func aliveScenarios(tier string) []*simScenario {
+	dev := 3
+	if tier == "thorough" {
+		dev = 4
+	}
+	out := []*simScenario{scenStress(dev)}
+	for _, b := range []*simScenario{
+		scenSnap(snapSeeds[1], dev, false, true, 2),
+		scenMember(memberSeeds[0], dev, 2, 0, true, nil, 1),
+		scenTransfer(xferSeeds[0], dev, true),
+		scenClient("leader", []string{"T:1", "run"}, []string{"update", "read", "barrier", "dirty", "batch2"}, []string{"transfer:2", "demote:1"}, dev, false, true, 2, 2),
+	} {
+		sc := cloneScenario(b)
+		sc.Name = "alive-" + b.Name
+		sc.Final = "shutdown"
+		sc.Menu.OrderCost = true
+		out = append(out, sc)
+	}
+	return out
+}
+
+func infoScenarios(tier string) []*simScenario {
+	dev := 2
+	if tier == "thorough" {
+		dev = 3
+	}
+	var out []*simScenario
+	for _, b := range []*simScenario{
+		scenRepl(replSeeds[3], dev, false, 1, 1, 4),
+		scenRepl(replSeeds[2], dev+1, false, 1, 1, 4),
+		scenSnap(snapSeeds[1], dev+1, false, true, 2),
+		scenSnap(snapSeeds[1], dev, true, false, 1),
+		scenSnap(snapSeeds[0], dev+1, false, true, 2),
+		scenMember(memberSeeds[0], dev+1, 2, 0, true, nil, 1),
+	} {
+		sc := cloneScenario(b)
+		sc.Name = "info-" + b.Name
+		sc.Menu.Dups = false
+		sc.Menu.Cuts = false
+		sc.Menu.Timeouts = b.Menu.OrderCost
+		if b.Menu.OrderCost || dev+1 == sc.MaxDev {
+			sc.Menu.OrderCost = true
+		}
+		out = append(out, sc)
+	}
+	return out
+}
+
+func init() {
+	for _, sc := range append(aliveScenarios("quick"), infoScenarios("quick")...) {
+		simScenarios[sc.Name] = sc
+	}
+	budget := func(tier string) time.Duration {
+		if tier == "thorough" {
+			return 40 * time.Minute
+		}
+		return 270 * time.Second
+	}
+	c15 := &simCheckSpec{Prop: "C15", Oracles: []string{"alive", "view"},
+		Scenarios: aliveScenarios, Budget: budget, MustReach: []string{"commits"},
+		Assume: []string{
+			"the data-race clause cannot be decided by a cooperative explorer (its hand-offs are happens-before edges); it is covered only by the supplementary free-running -race pass reported under coverage.race_pass",
+			"a panic, assertion failure or fatal error that would terminate the process is observed as Serve returning a panic / the worker process dying; a Log.Get through an unmapped segment (SIGSEGV in production) by the guard of harness/log/export_raft.go",
+		}}
+	vkChecks["C15"] = func(args []string) int { return runSimCheck(c15, args) }
+	c19 := &simCheckSpec{Prop: "C19", Oracles: []string{"info"},
+		Scenarios: infoScenarios, Budget: budget, MustReach: []string{"commits"},
+		Assume: []string{"status is read from the node's fields while all its goroutines are parked (the values a GetInfo task executed at that instant would copy); the GetInfo task itself is exercised in scenario stress of C15"}}
+	vkChecks["C19"] = func(args []string) int { return runSimCheck(c19, args) }
 }
